@@ -1249,16 +1249,24 @@ where
         end_stream || kawa.body_size != BodySize::Empty,
         "a continuing stream must have a resolved body framing before phasing"
     );
-    kawa.parsing_phase = match kawa.body_size {
-        BodySize::Chunked => ParsingPhase::Chunks { first: true },
-        BodySize::Length(0) => ParsingPhase::Terminated,
-        BodySize::Length(_) => ParsingPhase::Body,
-        BodySize::Empty => ParsingPhase::Chunks { first: true },
+    kawa.parsing_phase = if end_stream {
+        // No DATA frame follows: the message is complete, whatever length it
+        // declares (1xx / 204 / 304 and responses to HEAD may carry a
+        // Content-Length, or none at all, without any content).
+        ParsingPhase::Terminated
+    } else {
+        match kawa.body_size {
+            BodySize::Chunked => ParsingPhase::Chunks { first: true },
+            BodySize::Length(0) => ParsingPhase::Terminated,
+            BodySize::Length(_) => ParsingPhase::Body,
+            BodySize::Empty => ParsingPhase::Chunks { first: true },
+        }
     };
     // The phase we just selected must be consistent with the framing: a
     // length-framed body lands in Body/Terminated, never mid-chunk.
     debug_assert!(
-        !matches!(kawa.body_size, BodySize::Length(n) if n > 0)
+        end_stream
+            || !matches!(kawa.body_size, BodySize::Length(n) if n > 0)
             || kawa.parsing_phase == ParsingPhase::Body,
         "a non-empty Content-Length body must transition to ParsingPhase::Body"
     );
